@@ -25,6 +25,30 @@ import traceback
 VERIF_DIR = os.path.dirname(os.path.dirname(os.path.abspath(__file__)))
 
 
+def _start_cover():
+    """Reach probe: which lines of the package under test does this job execute?  sys.monitoring (independent of the
+    sys.settrace fault injector); every location reports once and is then disabled, so the cost is negligible."""
+    import decaylanguage
+
+    prefix = os.path.dirname(os.path.realpath(decaylanguage.__file__)) + os.sep
+    hits: set = set()
+    mon = sys.monitoring
+    try:
+        mon.use_tool_id(mon.COVERAGE_ID, "verif-reach")
+    except ValueError:
+        return None
+
+    def on_line(code, line):
+        fn = code.co_filename
+        if fn.startswith(prefix):
+            hits.add(fn[len(prefix):] + ":" + str(line))
+        return mon.DISABLE
+
+    mon.register_callback(mon.COVERAGE_ID, mon.events.LINE, on_line)
+    mon.set_events(mon.COVERAGE_ID, mon.events.LINE)
+    return hits
+
+
 def _run_in_child(job: dict) -> dict:
     limit = float(job.get("limit_s", 120))
     r, w = os.pipe()
@@ -37,10 +61,14 @@ def _run_in_child(job: dict) -> dict:
         try:
             os.close(r)
             faulthandler.dump_traceback_later(max(1.0, limit - 1.0), exit=False)
+            hits = _start_cover() if job.get("cover") else None
             try:
                 mod = importlib.import_module(job["engine"])
                 out = getattr(mod, job["func"])(job.get("args") or {})
-                payload = json.dumps({"ok": True, "out": out})
+                resp = {"ok": True, "out": out}
+                if hits is not None:
+                    resp["cover"] = sorted(hits)
+                payload = json.dumps(resp)
             except BaseException as e:  # harness failure, not a verdict
                 payload = json.dumps(
                     {
